@@ -130,3 +130,56 @@ def build_repeated(spec, how):
     if how == "f+f":
         return f + f, fc + fc
     return f.join([f, f]), fc * 3
+
+
+# ---- values just outside "small": long runs, many runs, unusual characters -----------------------------------------------------
+EXOTIC_TEXTS = (
+    "tab\there", "cr\rlf\r\n", "nul\x00del\x7f", "non-bmp \U0001f600\U00010000", "zwj a\u200db\u200d", "rtl \u200f\u05d0\u202e", "quote'\"\\",
+    "x" * 17, "ab" * 16, "line1\nline2\n", " lead and trail ", "\u00e9\u0301\u00df", "[0m[31m", "a;b;c", "%s {} %d",
+)
+
+
+def exotic_specs():
+    """A fixed list of run layouts beyond the small universes: 5, 8, 16, 17 and 33 runs, run lengths up to 32, unusual characters,
+    repeated identical runs, alternating empty runs.  Every character position is still identifiable (texts differ per run)."""
+    pal = (
+        (), (("fg", 31),), (("bold", True), ("fg", 34)), (("bg", 45),), (("underline", True),), (("bg", 42), ("fg", 33), ("invert", True)), (("dark", True), ("italic", True)), (("blink", True),),
+    )
+    out = []
+    for nruns in (5, 8, 16, 17, 33):
+        for ln in (1, 2):
+            spec = []
+            for i in range(nruns):
+                ch = LETTERS[i % 26] if i < 26 else LETTERS[i % 26].upper()
+                spec.append((ch * ln, pal[i % len(pal)]))
+            out.append(tuple(spec))
+        # every other run empty
+        spec = []
+        for i in range(nruns):
+            spec.append(("" if i % 2 else LETTERS[i % 26], pal[(i * 3) % len(pal)]))
+        out.append(tuple(spec))
+    for ln in (5, 8, 16, 17, 32):
+        out.append((("a" * ln, pal[1]), ("b" * ln, pal[3])))
+        out.append((("q" * ln, ()),))
+        out.append((("m" * ln, pal[2]), ("", pal[1]), ("n" * (ln - 1), pal[2])))
+    for k, t in enumerate(EXOTIC_TEXTS):
+        out.append(((t, pal[k % len(pal)]),))
+        half = len(t) // 2
+        out.append(((t[:half], pal[(k + 1) % len(pal)]), (t[half:], pal[(k + 2) % len(pal)])))
+    # identical runs next to each other (equal but distinct objects)
+    out.append((("ab", pal[1]), ("ab", pal[1]), ("ab", pal[1])))
+    out.append((("-", ()), ("-", pal[1]), ("-", ()), ("-", pal[1]), ("-", ())))
+    return out
+
+
+def boundary_points(spec):
+    """Index values worth trying on a long value: around 0, around every run boundary, around the end, and their negative twins."""
+    n = sum(len(t) for t, _ in spec)
+    pts = {0, 1, 2, n - 2, n - 1, n, n + 1, n + 2, n // 2}
+    pos = 0
+    for t, _ in spec:
+        pos += len(t)
+        pts.update((pos - 1, pos, pos + 1))
+    pts = {p for p in pts if -1 <= p <= n + 2}
+    pts |= {p - n for p in pts if p <= n} | {-n - 1, -n - 2, -1}
+    return sorted(pts)
